@@ -408,7 +408,7 @@ def mk_cmp(op, a, b):
     # a freshly constructed object / closure is never None or a constant
     for x, y in ((a, b), (b, a)):
         ax = x.single_atom()
-        if ax is not None and ax[0] in ("new", "closure", "tuple", "list", "dict", "objstate", "appended", "setitem", "mutated", "comp") and is_pure_const(y):
+        if ax is not None and ax[0] in ("new", "closure", "tuple", "list", "dict", "objstate", "appended", "setitem", "mutated", "comp", "lambda", "boundmethod") and is_pure_const(y):
             if op == "==":
                 return FALSE
             if op == "!=":
